@@ -1,7 +1,8 @@
 (* C03 — stream framing: consumed ++ remainder = input; the result ignores trailing bytes;
    no proper prefix of a completely consumed encoding parses. *)
 From Model Require Import Bytes Prim Tables Cert KAC Mapping Sig LS RI.
-From Proofs Require Import BytesLemmas PrimProofs Frame LeafProofs KacRT OffProofs MapRT UptoRT AppendAll Retail LSStrip.
+From Gen Require Import Validators.
+From Proofs Require Import BytesLemmas PrimProofs Frame LeafProofs KacRT OffProofs MapRT UptoRT AppendAll Retail LSStrip GuardTie.
 Open Scope Z_scope.
 
 (* general: prefix-freeness is a consequence of append-invariance, for every parser *)
@@ -164,3 +165,18 @@ Theorem C03_replace_tail_destination_from_leaseset : forall d dest rem t', wf d 
              read_destination_from_leaseset (db ++ t') = Ok (dest, t').
 Proof. exact read_dfl_retail. Qed.
 Print Assumptions C03_replace_tail_destination_from_leaseset.
+(* the readers' own minimum-size guards, regenerated from their Go bodies, are the comparisons the
+   model makes, and what the source's guard refuses the model's reader refuses (Proofs/GuardTie.v
+   has the whole family: offline signature, MetaLeaseSet, EncryptedLeaseSet, keys-and-cert) *)
+Theorem C03_source_guards_are_the_models :
+  (forall d dt, g_offline_signature_validateMinimumOfflineSignatureData (Z.of_nat (length d)) = false -> read_offline_signature d dt = Err) /\
+  (forall d, g_meta_leaseset_validateMinSize (Z.of_nat (length d)) = false -> read_meta_lease_set d = Err) /\
+  (forall d, g_encrypted_leaseset_validateEncryptedLeaseSetSize d = false -> read_encrypted_lease_set d = Err) /\
+  (forall d, g_keys_and_cert_validateKeysAndCertDataSize (Z.of_nat (length d)) = false -> read_keys_and_cert d = Err) /\
+  (forall n, g_meta_leaseset_validateEntryCount n =
+             negb ((n <? Gen.Consts.c_meta_leaseset_META_LEASESET_MIN_ENTRIES) || (n >? Gen.Consts.c_meta_leaseset_META_LEASESET_MAX_ENTRIES))).
+Proof.
+  split; [exact off_min_data_rejects|]. split; [exact meta_min_size_rejects|]. split; [exact els_min_size_rejects|].
+  split; [exact kac_data_size_rejects|exact tie_meta_entry_count].
+Qed.
+Print Assumptions C03_source_guards_are_the_models.
